@@ -28,6 +28,7 @@ pub proof fn lemma_rec_le_total(a: &Record, b: &Record) ensures rec_le(a, b) || 
 pub proof fn lemma_rec_le_trans(a: &Record, b: &Record, c: &Record) requires rec_le(a, b), rec_le(b, c) ensures rec_le(a, c) { lax::lex_trans(a.title.chars@, b.title.chars@, c.title.chars@); }
 pub proof fn lemma_ls_ok_records() ensures ls_ok::<&Record, CmpRecords>(CmpRecords)
 {
+    reveal(ls_ok);
     assert forall|x: &Record, y: &Record| #[trigger] ls_le::<&Record, CmpRecords>(CmpRecords, x, y) || ls_le::<&Record, CmpRecords>(CmpRecords, y, x) by {
         lax::ls_le_records(x, y); lax::ls_le_records(y, x); lemma_rec_le_total(x, y);
     }
